@@ -93,6 +93,8 @@ func alphabet() []reqDef {
 		jsonPost("post-plain", m("query", `{ctxinfo}`), nil),
 		jsonPost("post-echo-var", m("query", `query($s:String){echo(s:$s) ctxinfo}`, "variables", m("s", "S1")), nil),
 		jsonPost("post-echo-novar", m("query", `query($s:String){echo(s:$s) ctxinfo}`), nil),
+		// the same text again with a variable that puts the operation over the complexity limit
+		jsonPost("post-echo-var-over-limit", m("query", `query($s:String){echo(s:$s) ctxinfo}`, "variables", m("s", strings.Repeat("long ", 8))), nil),
 		// two texts that differ only in white space INSIDE a string literal
 		jsonPost("post-echo-2sp", m("query", `{echo(s:"a  b")}`), nil),
 		jsonPost("post-echo-1sp", m("query", `{echo(s:"a b")}`), nil),
@@ -200,6 +202,7 @@ func (c *lockedCache) keys() []string {
 
 type server struct {
 	srv   *handler.Server
+	hs    *handschema.Schema
 	apq   *lockedCache
 	qAdds []string
 }
@@ -207,7 +210,17 @@ type server struct {
 func newServer(prime map[string]string) *server {
 	s := &server{apq: &lockedCache{m: map[string]string{}}}
 	hs := handschema.New(&handschema.Log{})
+	// the complexity of echo depends on its argument, i.e. on the request's variables
+	hs.ComplexityFn = func(typeName, field string, child int, args map[string]any) (int, bool) {
+		if field == "echo" {
+			str, _ := args["s"].(string)
+			return 1 + len(str), true
+		}
+		return 0, false
+	}
+	s.hs = hs
 	s.srv = handler.New(hs)
+	s.srv.Use(extension.FixedComplexityLimit(20))
 	// each server gets its OWN configuration maps (a transport that writes into its
 	// configured ResponseHeaders would carry one request's negotiation into the next)
 	rh := func() map[string][]string { return map[string][]string{"X-Custom": {"v"}} }
@@ -503,7 +516,7 @@ func scenarios(tier string) []*explore.Scenario {
 	// a history prefix, then a pair in flight: e.g. a pooled object released twice by an
 	// error path is then handed to two concurrent requests
 	prefixes := []string{"post-invalid-json"}
-	members := []string{"post-A", "post-B-vars", "post-echo-novar", "post-plain"}
+	members := []string{"post-A", "post-B-vars", "post-echo-novar", "post-plain", "post-echo-var-over-limit"}
 	if tier == "thorough" {
 		prefixes = append(prefixes, "post-B-vars", "post-empty-object", "post-unknown-field")
 		members = append(members, "post-echo-var", "post-A-ext", "sse")
